@@ -23,6 +23,7 @@ use crate::world::{BankKind, Outcome, World};
 pub struct C09 {
     rng: StdRng,
     pub probe_every: usize,
+    probe_n: u32,
 }
 
 impl C09 {
@@ -30,6 +31,7 @@ impl C09 {
         C09 {
             rng: StdRng::seed_from_u64(seed ^ 0xC09),
             probe_every: 20,
+            probe_n: 0,
         }
     }
 }
@@ -237,6 +239,66 @@ impl C09 {
     }
 }
 
+impl C09 {
+    /// forked: more than ten farms on the position's LP token, the last one (by identifier)
+    /// owned by somebody who owns none of the others; every owner of an active farm must get
+    /// its share
+    fn many_farms_probe(&mut self, w: &mut World, s: &Step, rep: &mut Reporter) {
+        use crate::wfarm::{farm_funds, farm_op, fm_config_op};
+        use cosmwasm_std::coin;
+        use mantra_dex_std::farm_manager::{FarmAction, FarmParams};
+        let cur = match s.fpost.epoch {
+            Some(e) => e,
+            None => return,
+        };
+        let now = w.now();
+        let cands: Vec<&Position> = s.fpost.positions.values().filter(|p| p.expiring_at.map(|e| e > now + 2 * 86_400).unwrap_or(true) && p.lp_asset.amount.u128() >= 1_000 && p.lp_asset.amount.u128() < 10u128.pow(20)).collect();
+        let pos = match cands.choose(&mut self.rng) {
+            Some(p) => (*p).clone(),
+            None => return,
+        };
+        let others: Vec<Addr> = w.users.iter().filter(|u| **u != pos.receiver).cloned().collect();
+        if others.len() < 2 {
+            return;
+        }
+        let (a, b) = (others[0].clone(), others[1].clone());
+        let snap = w.snapshot();
+        let owner = w.owner.clone();
+        let fee = coin(0, "uom");
+        if !w.apply(&fm_config_op(&owner, |p| {
+            p.max_concurrent_farms = Some(s.fpost.cfg.max_concurrent_farms.max(16));
+            p.create_farm_fee = Some(fee.clone());
+        })).is_ok() {
+            w.restore(&snap);
+            return;
+        }
+        let lp = pos.lp_asset.denom.clone();
+        self.probe_n += 1;
+        let reward = coin(2_000, "uusdc");
+        let mk = |id: String| FarmAction::Create { params: FarmParams { lp_denom: lp.clone(), start_epoch: Some(cur + 1), preliminary_end_epoch: Some(cur + 5), curve: None, farm_asset: reward.clone(), farm_identifier: Some(id) } };
+        let mut made = 0;
+        for k in 0..11 {
+            if w.apply(&farm_op(&a, mk(format!("pa{}x{:02}", self.probe_n, k)), farm_funds(&reward, &fee))).is_ok() {
+                made += 1;
+            }
+        }
+        let last = w.apply(&farm_op(&b, mk(format!("pz{}", self.probe_n)), farm_funds(&reward, &fee))).is_ok();
+        if made < 10 || !last {
+            w.restore(&snap);
+            rep.count("penalty", "many_farms_probe_setup_refused");
+            return;
+        }
+        w.advance(w.cfg.epoch_duration);
+        let f = fobserve(w);
+        let t = w.now();
+        let out = w.apply(&pos_op(&pos.receiver, PositionAction::Withdraw { identifier: pos.identifier.clone(), emergency_unlock: Some(true) }, vec![]));
+        if out.is_ok() {
+            self.judge(w, &f, &pos, t, &out, "forked exit with 12+ farms on the LP token", rep);
+        }
+        w.restore(&snap);
+    }
+}
+
 impl Monitor for C09 {
     fn step(&mut self, w: &mut World, s: &Step, rep: &mut Reporter) {
         if let (Op::Fm { msg: fm::ExecuteMsg::ManagePosition { action: PositionAction::Withdraw { identifier, emergency_unlock: Some(true) } }, .. }, true) = (s.op, s.out.is_ok()) {
@@ -246,6 +308,9 @@ impl Monitor for C09 {
         }
         if s.idx % self.probe_every == self.probe_every - 1 {
             self.probe(w, s, rep);
+        }
+        if s.idx % 60 == 41 {
+            self.many_farms_probe(w, s, rep);
         }
         let _ = (BigInt::zero().is_negative(), 0u8.is_even());
     }
